@@ -922,9 +922,30 @@ fn dump(a: &Args) -> i32 {
     report::SOFT_MASK.store(report::soft_mask_for(pname), Relaxed);
     let none = Faults::default();
     for run in a.num("--from", 0)..a.num("--to", 10) {
+        // one child per history: a history that violates something natively ends its
+        // child, and is still printed (up to the failing call) from the shared context
+        let layout_seed = mix(seed, run, 1);
+        sh().ctx_len = 0;
+        let pid = unsafe { fork() };
+        if pid < 0 {
+            die("fork failed");
+        }
+        if pid > 0 {
+            let mut status = 0i32;
+            unsafe { waitpid(pid, &mut status, 0) };
+            if status != 0 {
+                let c = &sh().ctx[..sh().ctx_len as usize];
+                let text = String::from_utf8_lossy(c).to_string();
+                if let Some(i) = text.find("\"ops\":\"") {
+                    let ops: Vec<&str> = text[i + 7..].split(';').filter(|s| !s.starts_with('[')).collect();
+                    out(&format!("{pname}\t{layout_seed}\t{}\n", ops.join(";")));
+                }
+            }
+            continue;
+        }
+        report::F_QUIET.store(true, Relaxed);
         let mut cfg_rng = Rng(mix(seed, run, 3));
         let kn = profiles::knobs(pname, a.has("--thorough"), &mut cfg_rng);
-        let layout_seed = mix(seed, run, 1);
         let opts = ExecOpts { dtor_downgrade_p: kn.dtor_downgrade_p, want_snaps: profile.want_snaps, record_dtors: false, layout_noise: false, c16_markers: false };
         let head = ctx_head(pname, seed, run, 0, &[layout_seed], &none);
         let o = execute(&head, Source::Generate { kn: &kn, hist_seed: mix(seed, run, 0) }, &none, layout_seed, &opts);
@@ -935,6 +956,7 @@ fn dump(a: &Args) -> i32 {
             }
         }
         out(&format!("{pname}\t{layout_seed}\t{text}\n"));
+        unsafe { alloc::_exit(0) };
     }
     0
 }
